@@ -156,6 +156,8 @@ def analyse(pop, tier, routes=("a", "b"), compiled_limit=None, lex_prefixes=None
         runnable = [c for c in lexable if verdicts[c["id"]][1] == "ok"]
         S["lexable"], S["runnable"] = len(lexable), len(runnable)
         nullable_defs = [c for c in lexable if any(p["nullable"] and not p["skip"] for p in ovl[c["id"]]["pats"])]
+        # the as-is model lists one counterexample per looping string: keep its output bounded
+        nullable_defs = sorted(nullable_defs, key=lambda c: (len(c["alpha"]) ** c["N"], c["id"]))[:12]
         if not lexable:
             S.update(lex_states=0, lex_transitions=0, tab_states=0, tab_transitions=0, asis_states=0, asis_transitions=0,
                      strings=0, route_a=0, route_b=0, probes=0, prec_pairs=0, samples={}, disagreements=_finish(dis, byid))
@@ -273,9 +275,10 @@ def analyse(pop, tier, routes=("a", "b"), compiled_limit=None, lex_prefixes=None
                 S["route_a"] += 1
                 compare_run(add, c, w, spec_lex[(cid, w)], real, lambda i: pname.get(i, "?"), "a", (cid, w) in loops)
             if len(samples["C09"]) < 3:
-                w = strings[cid][-1]
+                k = max(range(len(strings[cid])), key=lambda i: len(spec_lex[(cid, strings[cid][i])]["toks"]))
+                w = strings[cid][k]
                 samples["C09"].append({"definition": cid, "grammar": E.render_grammar(c), "input": E.text_of(c, w),
-                                       "expected_by_MCLex": spec_lex[(cid, w)], "real_matcher": ra[cid]["res"][-1]})
+                                       "expected_by_MCLex": spec_lex[(cid, w)], "real_matcher": ra[cid]["res"][k]})
         # ---- C10: the table
         S["probes"] = 0
         for c in runnable:
@@ -618,7 +621,10 @@ def replay(obj):
             continue
         print("REPRODUCED:", d["prop"], d["key"], d["what"])
         n += 1
-    return 1 if n else 0
+    if not n:
+        print("NOT REPRODUCED against the current tree (DESIGN 7.8: exit 2)")
+        return 2
+    return 1
 
 
 # --------------------------------------------------------------------------
@@ -635,7 +641,7 @@ def selftest_expected_value():
     cargo_build_or_die(["lpdrv", "lexdrv", "lexrun"])
     orig = E.run_mclex
 
-    def corrupted(cases, asis=False, workers=6, timeout=1500):
+    def corrupted(cases, asis=False, workers=6, timeout=5400):
         res, pats, a, b, v = orig(cases, asis, workers, timeout)
         if not asis:
             k = sorted(k for k, x in res.items() if x["toks"])[0]
@@ -691,7 +697,7 @@ def selftest_table():
     cargo_build_or_die(["lpdrv", "lexdrv", "lexrun"])
     orig = E.run_tab
 
-    def corrupted(cases, workers=6, timeout=1500):
+    def corrupted(cases, workers=6, timeout=5400):
         tab, a, b = orig(cases, workers, timeout)
         k = sorted(tab)[0]
         w = sorted(tab[k])[0]
